@@ -69,3 +69,54 @@ package eip4844
 //@   ensures parent.ExcessBlobGas == nil ==> excess == excessSpec(isOsaka, bcfg.Target, bcfg.Max, bcfg.UpdateFraction, 0, 0, ite(isOsaka, bigval(parent.BaseFee), 0))
 //@   ensures isOsaka ==> bigval(parent.BaseFee) == old(bigval(parent.BaseFee))
 //@   nowrap
+
+// latestBlobConfig: the blob parameters are those of the latest fork that is active at `time`
+// AND has an entry in the blob schedule; with no schedule, or no such fork, it is an error.
+
+//@ directive pure-observer params.ChainConfig).IsBPO5
+//@ directive pure-observer params.ChainConfig).IsBPO4
+//@ directive pure-observer params.ChainConfig).IsBPO3
+//@ directive pure-observer params.ChainConfig).IsBPO2
+//@ directive pure-observer params.ChainConfig).IsBPO1
+//@ directive pure-observer params.ChainConfig).IsPrague
+//@ directive pure-observer params.ChainConfig).IsCancun
+//@ directive noeffect errors.New
+//@ func latestBlobConfig(cfg *params.ChainConfig, time uint64) (r BlobConfig, err error)
+//@   serves C35
+//@   ensures cfg.BlobScheduleConfig == nil ==> err != nil
+//@   ensures cfg.BlobScheduleConfig != nil && (observe(IsBPO5, cfg, cfg.LondonBlock, time) && cfg.BlobScheduleConfig.BPO5 != nil) ==> err == nil && r.Target == cfg.BlobScheduleConfig.BPO5.Target && r.Max == cfg.BlobScheduleConfig.BPO5.Max && r.UpdateFraction == cfg.BlobScheduleConfig.BPO5.UpdateFraction
+//@   ensures cfg.BlobScheduleConfig != nil && !(observe(IsBPO5, cfg, cfg.LondonBlock, time) && cfg.BlobScheduleConfig.BPO5 != nil) && (observe(IsBPO4, cfg, cfg.LondonBlock, time) && cfg.BlobScheduleConfig.BPO4 != nil) ==> err == nil && r.Target == cfg.BlobScheduleConfig.BPO4.Target && r.Max == cfg.BlobScheduleConfig.BPO4.Max && r.UpdateFraction == cfg.BlobScheduleConfig.BPO4.UpdateFraction
+//@   ensures cfg.BlobScheduleConfig != nil && !(observe(IsBPO5, cfg, cfg.LondonBlock, time) && cfg.BlobScheduleConfig.BPO5 != nil) && !(observe(IsBPO4, cfg, cfg.LondonBlock, time) && cfg.BlobScheduleConfig.BPO4 != nil) && (observe(IsBPO3, cfg, cfg.LondonBlock, time) && cfg.BlobScheduleConfig.BPO3 != nil) ==> err == nil && r.Target == cfg.BlobScheduleConfig.BPO3.Target && r.Max == cfg.BlobScheduleConfig.BPO3.Max && r.UpdateFraction == cfg.BlobScheduleConfig.BPO3.UpdateFraction
+//@   ensures cfg.BlobScheduleConfig != nil && !(observe(IsBPO5, cfg, cfg.LondonBlock, time) && cfg.BlobScheduleConfig.BPO5 != nil) && !(observe(IsBPO4, cfg, cfg.LondonBlock, time) && cfg.BlobScheduleConfig.BPO4 != nil) && !(observe(IsBPO3, cfg, cfg.LondonBlock, time) && cfg.BlobScheduleConfig.BPO3 != nil) && (observe(IsBPO2, cfg, cfg.LondonBlock, time) && cfg.BlobScheduleConfig.BPO2 != nil) ==> err == nil && r.Target == cfg.BlobScheduleConfig.BPO2.Target && r.Max == cfg.BlobScheduleConfig.BPO2.Max && r.UpdateFraction == cfg.BlobScheduleConfig.BPO2.UpdateFraction
+//@   ensures cfg.BlobScheduleConfig != nil && !(observe(IsBPO5, cfg, cfg.LondonBlock, time) && cfg.BlobScheduleConfig.BPO5 != nil) && !(observe(IsBPO4, cfg, cfg.LondonBlock, time) && cfg.BlobScheduleConfig.BPO4 != nil) && !(observe(IsBPO3, cfg, cfg.LondonBlock, time) && cfg.BlobScheduleConfig.BPO3 != nil) && !(observe(IsBPO2, cfg, cfg.LondonBlock, time) && cfg.BlobScheduleConfig.BPO2 != nil) && (observe(IsBPO1, cfg, cfg.LondonBlock, time) && cfg.BlobScheduleConfig.BPO1 != nil) ==> err == nil && r.Target == cfg.BlobScheduleConfig.BPO1.Target && r.Max == cfg.BlobScheduleConfig.BPO1.Max && r.UpdateFraction == cfg.BlobScheduleConfig.BPO1.UpdateFraction
+//@   ensures cfg.BlobScheduleConfig != nil && !(observe(IsBPO5, cfg, cfg.LondonBlock, time) && cfg.BlobScheduleConfig.BPO5 != nil) && !(observe(IsBPO4, cfg, cfg.LondonBlock, time) && cfg.BlobScheduleConfig.BPO4 != nil) && !(observe(IsBPO3, cfg, cfg.LondonBlock, time) && cfg.BlobScheduleConfig.BPO3 != nil) && !(observe(IsBPO2, cfg, cfg.LondonBlock, time) && cfg.BlobScheduleConfig.BPO2 != nil) && !(observe(IsBPO1, cfg, cfg.LondonBlock, time) && cfg.BlobScheduleConfig.BPO1 != nil) && (observe(IsPrague, cfg, cfg.LondonBlock, time) && cfg.BlobScheduleConfig.Prague != nil) ==> err == nil && r.Target == cfg.BlobScheduleConfig.Prague.Target && r.Max == cfg.BlobScheduleConfig.Prague.Max && r.UpdateFraction == cfg.BlobScheduleConfig.Prague.UpdateFraction
+//@   ensures cfg.BlobScheduleConfig != nil && !(observe(IsBPO5, cfg, cfg.LondonBlock, time) && cfg.BlobScheduleConfig.BPO5 != nil) && !(observe(IsBPO4, cfg, cfg.LondonBlock, time) && cfg.BlobScheduleConfig.BPO4 != nil) && !(observe(IsBPO3, cfg, cfg.LondonBlock, time) && cfg.BlobScheduleConfig.BPO3 != nil) && !(observe(IsBPO2, cfg, cfg.LondonBlock, time) && cfg.BlobScheduleConfig.BPO2 != nil) && !(observe(IsBPO1, cfg, cfg.LondonBlock, time) && cfg.BlobScheduleConfig.BPO1 != nil) && !(observe(IsPrague, cfg, cfg.LondonBlock, time) && cfg.BlobScheduleConfig.Prague != nil) && (observe(IsCancun, cfg, cfg.LondonBlock, time) && cfg.BlobScheduleConfig.Cancun != nil) ==> err == nil && r.Target == cfg.BlobScheduleConfig.Cancun.Target && r.Max == cfg.BlobScheduleConfig.Cancun.Max && r.UpdateFraction == cfg.BlobScheduleConfig.Cancun.UpdateFraction
+//@   ensures cfg.BlobScheduleConfig != nil && !(observe(IsBPO5, cfg, cfg.LondonBlock, time) && cfg.BlobScheduleConfig.BPO5 != nil) && !(observe(IsBPO4, cfg, cfg.LondonBlock, time) && cfg.BlobScheduleConfig.BPO4 != nil) && !(observe(IsBPO3, cfg, cfg.LondonBlock, time) && cfg.BlobScheduleConfig.BPO3 != nil) && !(observe(IsBPO2, cfg, cfg.LondonBlock, time) && cfg.BlobScheduleConfig.BPO2 != nil) && !(observe(IsBPO1, cfg, cfg.LondonBlock, time) && cfg.BlobScheduleConfig.BPO1 != nil) && !(observe(IsPrague, cfg, cfg.LondonBlock, time) && cfg.BlobScheduleConfig.Prague != nil) && !(observe(IsCancun, cfg, cfg.LondonBlock, time) && cfg.BlobScheduleConfig.Cancun != nil) ==> err != nil
+
+// The parameters in force at `time`, as spec functions (same selection rule as latestBlobConfig),
+// and the two exported compositions: the blob base fee of a header is computed from the header's
+// own excess blob gas with the update fraction in force at the header's own time; the excess blob
+// gas of a child is computed from the parent's fields with the parameters in force at the child's
+// time.
+//@ pure func anyBlobFork(cfg *params.ChainConfig, time uint64) bool { return cfg.BlobScheduleConfig != nil && ((observe(IsBPO5, cfg, cfg.LondonBlock, time) && cfg.BlobScheduleConfig.BPO5 != nil) || (observe(IsBPO4, cfg, cfg.LondonBlock, time) && cfg.BlobScheduleConfig.BPO4 != nil) || (observe(IsBPO3, cfg, cfg.LondonBlock, time) && cfg.BlobScheduleConfig.BPO3 != nil) || (observe(IsBPO2, cfg, cfg.LondonBlock, time) && cfg.BlobScheduleConfig.BPO2 != nil) || (observe(IsBPO1, cfg, cfg.LondonBlock, time) && cfg.BlobScheduleConfig.BPO1 != nil) || (observe(IsPrague, cfg, cfg.LondonBlock, time) && cfg.BlobScheduleConfig.Prague != nil) || (observe(IsCancun, cfg, cfg.LondonBlock, time) && cfg.BlobScheduleConfig.Cancun != nil)) }
+//@ pure func actUpdateFraction(cfg *params.ChainConfig, time uint64) int { return ite((observe(IsBPO5, cfg, cfg.LondonBlock, time) && cfg.BlobScheduleConfig.BPO5 != nil), cfg.BlobScheduleConfig.BPO5.UpdateFraction, ite((observe(IsBPO4, cfg, cfg.LondonBlock, time) && cfg.BlobScheduleConfig.BPO4 != nil), cfg.BlobScheduleConfig.BPO4.UpdateFraction, ite((observe(IsBPO3, cfg, cfg.LondonBlock, time) && cfg.BlobScheduleConfig.BPO3 != nil), cfg.BlobScheduleConfig.BPO3.UpdateFraction, ite((observe(IsBPO2, cfg, cfg.LondonBlock, time) && cfg.BlobScheduleConfig.BPO2 != nil), cfg.BlobScheduleConfig.BPO2.UpdateFraction, ite((observe(IsBPO1, cfg, cfg.LondonBlock, time) && cfg.BlobScheduleConfig.BPO1 != nil), cfg.BlobScheduleConfig.BPO1.UpdateFraction, ite((observe(IsPrague, cfg, cfg.LondonBlock, time) && cfg.BlobScheduleConfig.Prague != nil), cfg.BlobScheduleConfig.Prague.UpdateFraction, ite((observe(IsCancun, cfg, cfg.LondonBlock, time) && cfg.BlobScheduleConfig.Cancun != nil), cfg.BlobScheduleConfig.Cancun.UpdateFraction, 0))))))) }
+//@ pure func actTarget(cfg *params.ChainConfig, time uint64) int { return ite((observe(IsBPO5, cfg, cfg.LondonBlock, time) && cfg.BlobScheduleConfig.BPO5 != nil), cfg.BlobScheduleConfig.BPO5.Target, ite((observe(IsBPO4, cfg, cfg.LondonBlock, time) && cfg.BlobScheduleConfig.BPO4 != nil), cfg.BlobScheduleConfig.BPO4.Target, ite((observe(IsBPO3, cfg, cfg.LondonBlock, time) && cfg.BlobScheduleConfig.BPO3 != nil), cfg.BlobScheduleConfig.BPO3.Target, ite((observe(IsBPO2, cfg, cfg.LondonBlock, time) && cfg.BlobScheduleConfig.BPO2 != nil), cfg.BlobScheduleConfig.BPO2.Target, ite((observe(IsBPO1, cfg, cfg.LondonBlock, time) && cfg.BlobScheduleConfig.BPO1 != nil), cfg.BlobScheduleConfig.BPO1.Target, ite((observe(IsPrague, cfg, cfg.LondonBlock, time) && cfg.BlobScheduleConfig.Prague != nil), cfg.BlobScheduleConfig.Prague.Target, ite((observe(IsCancun, cfg, cfg.LondonBlock, time) && cfg.BlobScheduleConfig.Cancun != nil), cfg.BlobScheduleConfig.Cancun.Target, 0))))))) }
+//@ pure func actMax(cfg *params.ChainConfig, time uint64) int { return ite((observe(IsBPO5, cfg, cfg.LondonBlock, time) && cfg.BlobScheduleConfig.BPO5 != nil), cfg.BlobScheduleConfig.BPO5.Max, ite((observe(IsBPO4, cfg, cfg.LondonBlock, time) && cfg.BlobScheduleConfig.BPO4 != nil), cfg.BlobScheduleConfig.BPO4.Max, ite((observe(IsBPO3, cfg, cfg.LondonBlock, time) && cfg.BlobScheduleConfig.BPO3 != nil), cfg.BlobScheduleConfig.BPO3.Max, ite((observe(IsBPO2, cfg, cfg.LondonBlock, time) && cfg.BlobScheduleConfig.BPO2 != nil), cfg.BlobScheduleConfig.BPO2.Max, ite((observe(IsBPO1, cfg, cfg.LondonBlock, time) && cfg.BlobScheduleConfig.BPO1 != nil), cfg.BlobScheduleConfig.BPO1.Max, ite((observe(IsPrague, cfg, cfg.LondonBlock, time) && cfg.BlobScheduleConfig.Prague != nil), cfg.BlobScheduleConfig.Prague.Max, ite((observe(IsCancun, cfg, cfg.LondonBlock, time) && cfg.BlobScheduleConfig.Cancun != nil), cfg.BlobScheduleConfig.Cancun.Max, 0))))))) }
+//@ func CalcBlobFee(config *params.ChainConfig, header *types.Header) (fee *big.Int)
+//@   serves C35
+//@   maypanic
+//@   requires header.ExcessBlobGas != nil
+//@   requires anyBlobFork(config, header.Time) ==> actUpdateFraction(config, header.Time) > 0
+//@   ensures anyBlobFork(config, header.Time) && fee != nil && bigval(fee) == fakeExpSpec(1, *header.ExcessBlobGas, actUpdateFraction(config, header.Time))
+
+//@ directive pure-observer params.ChainConfig).IsOsaka
+//@ func CalcExcessBlobGas(config *params.ChainConfig, parent *types.Header, headTimestamp uint64) (excess uint64)
+//@   serves C35
+//@   maypanic
+//@   requires anyBlobFork(config, headTimestamp) ==> 0 <= actTarget(config, headTimestamp) && actTarget(config, headTimestamp) <= actMax(config, headTimestamp) && 0 < actMax(config, headTimestamp) && actMax(config, headTimestamp) <= 1048576 && actUpdateFraction(config, headTimestamp) > 0
+//@   requires parent.ExcessBlobGas != nil ==> parent.BlobGasUsed != nil
+//@   requires parent.ExcessBlobGas != nil ==> *parent.ExcessBlobGas <= 4611686018427387904 && *parent.BlobGasUsed <= actMax(config, headTimestamp) * 131072
+//@   requires observe(IsOsaka, config, config.LondonBlock, headTimestamp) ==> parent.BaseFee != nil && bigval(parent.BaseFee) >= 0
+//@   ensures anyBlobFork(config, headTimestamp)
+//@   ensures parent.ExcessBlobGas != nil ==> excess == excessSpec(observe(IsOsaka, config, config.LondonBlock, headTimestamp), actTarget(config, headTimestamp), actMax(config, headTimestamp), actUpdateFraction(config, headTimestamp), *parent.ExcessBlobGas, *parent.BlobGasUsed, ite(observe(IsOsaka, config, config.LondonBlock, headTimestamp), bigval(parent.BaseFee), 0))
+//@   ensures parent.ExcessBlobGas == nil ==> excess == excessSpec(observe(IsOsaka, config, config.LondonBlock, headTimestamp), actTarget(config, headTimestamp), actMax(config, headTimestamp), actUpdateFraction(config, headTimestamp), 0, 0, ite(observe(IsOsaka, config, config.LondonBlock, headTimestamp), bigval(parent.BaseFee), 0))
